@@ -23,7 +23,7 @@ def np_curve(c):
 
 def gen_curve(rng, lo=32, hi=64, clampy=False):
     """efficiencies k/64 in [0.5, 1]; loads k/8; optionally values outside [0.01, 1]"""
-    k = rng.choice([1, 1, 2, 3, 3, 4, 5, 6])
+    k = rng.choice([1, 1, 2, 2, 2, 3, 3, 4, 5, 6])
     val = lambda: Fraction(rng.randint(lo, hi), 64)
     if k == 1:
         v = val()
